@@ -62,7 +62,7 @@ def prog_id(prog: dict) -> str:
 
 def stmt_inputs(st_: dict) -> List[str]:
     op = st_["op"]
-    if op in ("linear", "ulinear", "ew", "shape", "matmul", "conv1d", "intop", "detach", "argmax", "seq"):
+    if op in ("linear", "ulinear", "ew", "shape", "matmul", "conv1d", "intop", "detach", "argmax", "seq", "mlp2"):
         return [st_["x"]]
     if op == "sdpa":
         return [st_["q"], st_["k"], st_["v"]]
@@ -147,6 +147,11 @@ def _param_specs(prog: dict) -> List[Tuple[str, str, Any]]:
             out.append((f"w{i}", "param", (h, h)))
         elif op == "seq":
             out.append((f"seq{i}", "module", ("Sequential", h, s["bias"])))
+        elif op == "mlp2":
+            out.append((f"wa{i}", "param", (s["mid"], h)))
+            if s["bias"]:
+                out.append((f"ba{i}", "param", (s["mid"],)))
+            out.append((f"wb{i}", "param", (h, s["mid"])))
         elif op == "conv1d":
             out.append((f"cw{i}", "param", (h, h, 3)))
         elif op == "embedding":
@@ -272,6 +277,13 @@ def _expr(s: dict, prog: dict) -> List[str]:
         return [f"{o} = torch.matmul({s['x']}, self.w{i})"]
     if op == "seq":
         return [f"{o} = self.seq{i}({s['x']})"]
+    if op == "mlp2":
+        ba = f"self.ba{i}" if s["bias"] else "None"
+        if s["unit"]:
+            cons = s.get("constraint", "default")
+            c1 = "" if cons == "default" else (f", {cons!r}" if s.get("cspell") == "pos" else f", constraint={cons!r}")
+            return [f"{o} = U.linear(U.linear({s['x']}, self.wa{i}, {ba}{c1}), self.wb{i}, None{c1})"]
+        return [f"{o} = F.linear(F.linear({s['x']}, self.wa{i}, {ba}), self.wb{i})"]
     if op == "conv1d":
         return [f"{o} = F.conv1d({s['x']}.transpose(1, 2), self.cw{i}, None, 1, 1).transpose(1, 2)"]
     if op == "embedding":
@@ -671,6 +683,10 @@ def evaluate(prog: dict, P: Dict[str, torch.Tensor], inputs: Dict[str, torch.Ten
                 raise KeyError(k)
         elif op == "matmul":
             v = mode.matmul(s, env[s["x"]], P[f"w{i}"])
+        elif op == "mlp2":
+            f_ = mode.ulinear if s["unit"] else mode.linear
+            t = f_(s, env[s["x"]], P[f"wa{i}"], P[f"ba{i}"] if s["bias"] else None)
+            v = f_(s, t, P[f"wb{i}"], None)
         elif op == "seq":
             t = mode.linear(s, env[s["x"]], P[f"seq{i}.0.weight"], P.get(f"seq{i}.0.bias"))
             v = mode.linear(s, torch.tanh(t), P[f"seq{i}.2.weight"], P.get(f"seq{i}.2.bias"))
@@ -746,7 +762,7 @@ class _Builder:
             return self.emit(op="linear", x=x, i=self.idx(), bias=bias, spell=sp)
         if k == "ulinear":
             return self.emit(op="ulinear", x=x, i=self.idx(), bias=d(st.booleans()), readout=d(st.integers(0, 3)) == 0,
-                             constraint=d(st.sampled_from(["default", None, "gmean"])))
+                             constraint=d(st.sampled_from(["default", None, "gmean"])), cspell=d(st.sampled_from(["kw", "pos"])))
         if k == "sdpa":
             mask = d(st.sampled_from([None, None, "bool", "float"]))
             causal = mask is None and d(st.booleans())
@@ -769,6 +785,13 @@ class _Builder:
             return self.emit(op="matmul", x=x, i=self.idx())
         if k == "seq":
             return self.emit(op="seq", x=x, i=self.idx(), bias=d(st.booleans()))
+        if k in ("mlp2", "umlp2"):
+            # a pair of non-square linears h -> mid -> h (fan_in != fan_out: forward and backward scales differ)
+            mid = d(st.sampled_from([1, 3, 2 * self.h, 5]))
+            if mid == self.h:
+                mid += 1
+            return self.emit(op="mlp2", x=x, i=self.idx(), bias=d(st.booleans()), mid=mid, unit=(k == "umlp2"),
+                             constraint=d(st.sampled_from(["default", None, "gmean"])) if k == "umlp2" else "default", cspell=d(st.sampled_from(["kw", "pos"])))
         if k == "conv1d":
             return self.emit(op="conv1d", x=x, i=self.idx())
         if k == "intop":
@@ -853,7 +876,7 @@ ALLOW_UNIT = dict(
     plain_add=["fork", "param", "x2"],
     extra=[],
 )
-KINDS_UNIT = ["linear", "linear", "seq", "ew", "ew", "ew", "sdpa", "shape", "matmul", "conv1d", "scalar_add"]
+KINDS_UNIT = ["linear", "linear", "seq", "mlp2", "ew", "ew", "ew", "sdpa", "shape", "matmul", "conv1d", "scalar_add"]
 
 
 @st.composite
@@ -909,7 +932,7 @@ ALLOW_QUANT = dict(
     plain_add=["fork", "param", "x2"],
     extra=["usdpa"],
 )
-KINDS_QUANT = ["linear", "linear", "linear", "seq", "ulinear", "sdpa", "sdpa", "ew", "ew", "shape"]
+KINDS_QUANT = ["linear", "linear", "linear", "seq", "mlp2", "umlp2", "ulinear", "sdpa", "sdpa", "ew", "ew", "shape"]
 
 
 @st.composite
@@ -979,7 +1002,7 @@ def stats(prog: dict) -> Dict[str, int]:
     plan = unit_plan(prog)
     ops = [s["op"] for s in prog["stmts"]]
     return dict(n_ops=len(ops), n_residual=len(plan["residual"]), n_add=sum(o == "add" for o in ops),
-                n_linear=sum(o in ("linear", "ulinear") for o in ops) + 2 * sum(o == "seq" for o in ops), n_sdpa=sum(o == "sdpa" for o in ops))
+                n_linear=sum(o in ("linear", "ulinear") for o in ops) + 2 * sum(o in ("seq", "mlp2") for o in ops), n_sdpa=sum(o == "sdpa" for o in ops))
 
 
 ALLOW_TRACK = dict(
@@ -991,7 +1014,7 @@ ALLOW_TRACK = dict(
     plain_add=["fork", "fork", "param", "x2"],
     extra=[],
 )
-KINDS_TRACK = ["linear", "seq", "ew", "ew", "shape", "shape", "shape", "sdpa", "matmul", "intop", "scalar_add"]
+KINDS_TRACK = ["linear", "seq", "mlp2", "ew", "ew", "shape", "shape", "shape", "sdpa", "matmul", "intop", "scalar_add"]
 
 
 @st.composite
@@ -1037,3 +1060,185 @@ def track_programs(draw, max_ops=14):
     else:
         ret = dict(kind=kind, var=cur)
     return dict(h=h, B=B, S=S, V=V, inputs=inputs, stmts=b.stmts, ret=ret, zeros_in_input=draw(st.booleans()))
+
+
+# ---------------------------------------------------------------------------------------------
+# hand-built FX graphs (the library backends can be called on them directly, without TorchDynamo)
+
+
+def to_fx(prog: dict):
+    """The program as a hand-built torch.fx.GraphModule over placeholders (inputs first, then every parameter / buffer the
+    interpreter reads).  Returns (graph module, [placeholder keys]); a key is an input name or a named_tensors() key.
+    Covers the vocabulary of `quant_programs`."""
+    import operator
+
+    from torch import fx
+
+    g = fx.Graph()
+    keys: List[str] = []
+    ph: Dict[str, Any] = {}
+
+    def P(key):
+        if key not in ph:
+            keys.append(key)
+            ph[key] = g.placeholder(key.replace(".", "_"))
+        return ph[key]
+    for name in forward_args(prog):
+        P(name)
+    # parameters must be placeholders *before* the first call node: create them in program order up front
+    h = prog["h"]
+    env: Dict[str, Any] = {name: ph[name] for name in prog["inputs"]}
+    plan: List[Tuple[dict, Any]] = []
+    for s in prog["stmts"]:
+        i = s.get("i")
+        op = s["op"]
+        if op == "linear":
+            if s["spell"] == "module":
+                P(f"lin{i}.weight")
+                if s["bias"]:
+                    P(f"lin{i}.bias")
+            else:
+                P(f"w{i}")
+                if s["bias"]:
+                    P(f"b{i}")
+        elif op == "ulinear":
+            P(f"w{i}")
+            if s["bias"]:
+                P(f"b{i}")
+        elif op == "mlp2":
+            P(f"wa{i}")
+            if s["bias"]:
+                P(f"ba{i}")
+            P(f"wb{i}")
+        elif op == "seq":
+            for k_ in ("0", "2"):
+                P(f"seq{i}.{k_}.weight")
+                if s["bias"]:
+                    P(f"seq{i}.{k_}.bias")
+        elif op == "param":
+            P(f"p{i}")
+        elif op == "ew" and s["fn"] == "layer_norm":
+            P(f"lnw{i}")
+            P(f"lnb{i}")
+        elif op == "ew" and s["fn"] == "layer_norm_mod":
+            P(f"ln{i}.weight")
+            P(f"ln{i}.bias")
+    cf = g.call_function
+    for s in prog["stmts"]:
+        i = s.get("i")
+        op = s["op"]
+        o = s["out"]
+        if op == "linear":
+            x = env[s["x"]]
+            if s["spell"] == "module":
+                w, b = ph[f"lin{i}.weight"], ph.get(f"lin{i}.bias")
+                env[o] = cf(F.linear, (x, w, b))
+            else:
+                w, b = ph[f"w{i}"], (ph[f"b{i}"] if s["bias"] else None)
+                sp = s["spell"]
+                if sp == "nobias":
+                    env[o] = cf(F.linear, (x, w))
+                elif sp == "kwbias":
+                    env[o] = cf(F.linear, (x, w), {"bias": b})
+                elif sp == "allkw":
+                    env[o] = cf(F.linear, (), {"input": x, "weight": w, "bias": b})
+                else:
+                    env[o] = cf(F.linear, (x, w, b))
+        elif op == "ulinear":
+            fn = U.linear_readout if s.get("readout") else U.linear
+            x, w, b = env[s["x"]], ph[f"w{i}"], (ph[f"b{i}"] if s["bias"] else None)
+            cons = s.get("constraint", "default")
+            if cons == "default":
+                env[o] = cf(fn, (x, w, b))
+            elif s.get("cspell", "kw") == "pos":
+                env[o] = cf(fn, (x, w, b, cons))
+            else:
+                env[o] = cf(fn, (x, w, b), {"constraint": cons})
+        elif op == "mlp2":
+            x, wa, ba, wb = env[s["x"]], ph[f"wa{i}"], (ph[f"ba{i}"] if s["bias"] else None), ph[f"wb{i}"]
+            if s["unit"]:
+                cons = s.get("constraint", "default")
+                if cons == "default":
+                    env[o] = cf(U.linear, (cf(U.linear, (x, wa, ba)), wb, None))
+                elif s.get("cspell") == "pos":
+                    env[o] = cf(U.linear, (cf(U.linear, (x, wa, ba, cons)), wb, None, cons))
+                else:
+                    env[o] = cf(U.linear, (cf(U.linear, (x, wa, ba), {"constraint": cons}), wb, None), {"constraint": cons})
+            else:
+                env[o] = cf(F.linear, (cf(F.linear, (x, wa, ba)), wb))
+        elif op == "seq":
+            t = cf(F.linear, (env[s["x"]], ph[f"seq{i}.0.weight"], ph.get(f"seq{i}.0.bias")))
+            t = cf(torch.tanh, (t,))
+            env[o] = cf(F.linear, (t, ph[f"seq{i}.2.weight"], ph.get(f"seq{i}.2.bias")))
+        elif op == "sdpa":
+            fn = U.scaled_dot_product_attention if s["unit"] else F.scaled_dot_product_attention
+            args = [env[s["q"]], env[s["k"]], env[s["v"]]]
+            kw: Dict[str, Any] = {}
+            if s["mask"] is not None:
+                m_ = ph["mask_b" if s["mask"] == "bool" else "mask_f"]
+                if s["mask_spell"] == "pos":
+                    args.append(m_)
+                else:
+                    kw["attn_mask"] = m_
+            if s.get("dropout_kw"):
+                kw["dropout_p"] = 0.0
+            if s["causal"]:
+                kw["is_causal"] = True
+            if s["unit"] and s.get("mult", 1.0) != 1.0:
+                kw["mult"] = s["mult"]
+            env[o] = cf(fn, tuple(args), kw)
+        elif op == "ew":
+            x = env[s["x"]]
+            fnn = s["fn"]
+            if fnn == "tanh":
+                env[o] = cf(torch.tanh, (x,))
+            elif fnn == "relu":
+                env[o] = cf(F.relu, (x,))
+            elif fnn == "sin":
+                env[o] = cf(torch.sin, (x,))
+            elif fnn == "mulc":
+                env[o] = cf(operator.mul, (x, s.get("c", 0.5)))
+            elif fnn == "neg":
+                env[o] = cf(operator.neg, (x,))
+            elif fnn == "gelu":
+                env[o] = cf(F.gelu, (x,))
+            elif fnn == "layer_norm":
+                env[o] = cf(F.layer_norm, (x, (h,), ph[f"lnw{i}"], ph[f"lnb{i}"]))
+            elif fnn == "layer_norm_mod":
+                env[o] = cf(F.layer_norm, (x, (h,), ph[f"ln{i}.weight"], ph[f"ln{i}.bias"], 1e-5))
+            else:
+                raise KeyError(fnn)
+        elif op == "add":
+            a = env[s["a"]]
+            b = s.get("c", 1.0) if s["b"] == "scalar" else env[s["b"]]
+            env[o] = cf(torch.add if s["spell"] == "torch.add" else operator.add, (a, b))
+        elif op == "param":
+            env[o] = ph[f"p{i}"]
+        elif op == "shape":
+            x = env[s["x"]]
+            k = s["kind"]
+            B, S = prog["B"], prog["S"]
+            if k == "flat":
+                t = g.call_method("reshape", (x, B, S * h))
+                env[o] = g.call_method("reshape", (t, B, S, h))
+            elif k == "transpose2":
+                t = g.call_method("transpose", (x, 1, 2))
+                env[o] = g.call_method("transpose", (t, 1, 2))
+            elif k == "rotate_half":
+                a_ = cf(operator.getitem, (x, (Ellipsis, slice(h // 2, None))))
+                b_ = cf(operator.getitem, (x, (Ellipsis, slice(None, h // 2))))
+                env[o] = cf(torch.cat, ((cf(operator.neg, (a_,)), b_), -1))
+            elif k == "slice_cat":
+                a_ = cf(operator.getitem, (x, (slice(None), slice(1, None))))
+                b_ = cf(operator.getitem, (x, (slice(None), slice(None, 1))))
+                env[o] = cf(torch.cat, ([a_, b_],), {"dim": 1})
+            else:
+                raise KeyError(k)
+        else:
+            raise KeyError(op)
+    r = prog["ret"]
+    assert r["kind"] == "dot"
+    out = g.call_method("sum", (cf(operator.mul, (env[r["var"]], ph["g"])),))
+    g.output(out)
+    g.lint()
+    return fx.GraphModule(nn.Module(), g), keys
